@@ -17,13 +17,16 @@ func ParseValidNameKV(validName string) (key, value, cusMsg string) {
 	tmp := validName
 	// 因为 validName 中的 k, v 通过 = 连接
 	splitIndex := strings.Index(tmp, "=")
+	if msgIndex := strings.Index(tmp, "|"); msgIndex != -1 && msgIndex < splitIndex {
+		splitIndex = -1 // "=" 在自定义说明里, 如: required|a=b, 不是 k=v
+	}
 
 	// 如果没有则代表 validName 不为 k=v 类型, 只有一个字段如: required
 	if splitIndex == -1 {
 		// 需要确定下是否包含自定义 msg, 格式为: validName|xxx, 如: required|必填
 		key = tmp
 		cusMsgIndex := strings.Index(tmp, "|")
-		if cusMsgIndex != -1 && len(tmp)-1 > cusMsgIndex+1 {
+		if cusMsgIndex != -1 && len(tmp)-1 >= cusMsgIndex+1 {
 			key = tmp[:cusMsgIndex]
 			cusMsg = tmp[cusMsgIndex+1:]
 			// 根据如果说明有中文就加前缀为: 说明; 否则为 Explain
@@ -40,7 +43,7 @@ func ParseValidNameKV(validName string) (key, value, cusMsg string) {
 	value = tmp[splitIndex+1:]
 	// 需要确定下是否包含自定义 msg, 格式为: validName|xxx, 如: "to=1~2|大于等于 1 且小于等于 2"
 	cusMsgIndex := strings.Index(value, "|")
-	if cusMsgIndex != -1 && len(value)-1 > cusMsgIndex+1 {
+	if cusMsgIndex != -1 && len(value)-1 >= cusMsgIndex+1 {
 		// 根据如果说明有中文就加前缀为: 说明; 否则为 Explain
 		cusMsg = value[cusMsgIndex+1:]
 		if match := IncludeZhRe.MatchString(cusMsg); match {
